@@ -112,6 +112,38 @@ def path_counts():
     return out, else_counts, helper_ok
 
 
+def async_request_facts():
+    """Facts about SFTPClient._async_request read from its AST: the lock region is `self._lock.acquire()` followed
+    by a try whose finally releases the lock; (1) every use of self.request_number (hence the id written into the
+    packet and the allocation) lies inside that region; (2) the packet is sent (self._send_packet) outside it."""
+    from paramiko.sftp_client import SFTPClient
+
+    fn = ast.parse(textwrap.dedent(inspect.getsource(SFTPClient._async_request))).body[0]
+
+    def is_lock_call(node, meth):
+        return (isinstance(node, ast.Expr) and isinstance(node.value, ast.Call)
+                and isinstance(node.value.func, ast.Attribute) and node.value.func.attr == meth
+                and isinstance(node.value.func.value, ast.Attribute) and node.value.func.value.attr == "_lock")
+
+    region = None
+    for i, st in enumerate(fn.body):
+        if is_lock_call(st, "acquire") and i + 1 < len(fn.body) and isinstance(fn.body[i + 1], ast.Try):
+            tr = fn.body[i + 1]
+            if any(is_lock_call(x, "release") for x in tr.finalbody):
+                region = tr
+    def uses_reqnum(nodes):
+        return any(isinstance(c, ast.Attribute) and c.attr == "request_number" for n in nodes for c in ast.walk(n))
+    def calls(nodes, name):
+        return any(isinstance(c, ast.Call) and isinstance(c.func, ast.Attribute) and c.func.attr == name
+                   for n in nodes for c in ast.walk(n))
+    if region is None:
+        return {"lockRegionFound": False, "idReadUnderLock": False, "sendOutsideLock": False}
+    outside = [st for st in fn.body if st is not region]
+    return {"lockRegionFound": True,
+            "idReadUnderLock": uses_reqnum(region.body) and not uses_reqnum(outside),
+            "sendOutsideLock": calls(outside, "_send_packet") and not calls([region], "_send_packet")}
+
+
 def lean_source():
     consts, branches, else_types, named = generate()
     pcounts, else_counts, helper_counts = path_counts()
@@ -138,5 +170,9 @@ def lean_source():
     L.append("/-- the same for the helpers a branch may call instead of a responder -/")
     L.append("def helperSendCounts : List (List Nat) := [%s]" % ", ".join(
         "[%s]" % ", ".join(map(str, helper_counts[k])) for k in sorted(helper_counts)))
+    facts = async_request_facts()
+    L.append("/-- SFTPClient._async_request: the packet is sent outside the region that holds self._lock (AST) -/")
+    L.append("def sendOutsideLock : Bool := %s" % ("true" if facts["sendOutsideLock"] else "false"))
+    L.append("def sendUnderLock : Bool := !sendOutsideLock")
     L.append("end PV.Generated.C30")
     return "\n".join(L) + "\n"
